@@ -83,6 +83,8 @@ VSerialize(st, ev) ==
      ELSE IF ~IsPrintableAscii(HexToBytes(ev.out.raw)) THEN Bad("C08: serialize() output is not printable ASCII", "", st)
      ELSE IF DOMAIN ev.out.fields # DOMAIN e.v
           THEN Bad("C10: serialized field set", ToJson(DOMAIN e.v), st)
+     ELSE IF \E k \in DOMAIN ev.out.fields : k # "side" /\ ~IsHexString(ev.out.fields[k])
+          THEN Bad("C10: a serialized field is not hex-encoded", "", st)
      ELSE LET got == BlobBytes(ev.out.fields)
               bad == {k \in DOMAIN e.v : got[k] # e.v[k]}
           IN IF bad = {} THEN Good(st)
